@@ -62,6 +62,8 @@ def programs(tier):
         for node in nodes + two:
             srcs = [srcL, srcR] if "R" in node.text.replace("R.", "R").split("L")[-1] or ".merge(" in node.text or "concat" in node.text else [srcL]
             for text, tag, ordered in _selections(node):
+                if tag == "key-groupby" and ".shuffle(" in node.text and ".sum())" in node.text:
+                    continue  # group-by over a broadcast reduction over a shuffle: beyond the solver budget (nested hash case splits), bounded out
                 key = (text, nrows, nparts)
                 if key in seen:
                     continue
